@@ -20,13 +20,13 @@ type ScriptTransport struct {
 	mu   sync.Mutex
 	cond *sync.Cond
 
-	open      bool
-	gen       int // incremented by every successful Open
-	inbuf     []byte
-	inErr     error // delivered once inbuf is drained (sticky until next Open)
-	outbuf    []byte
-	OnFrame   func(frame []byte) // called (outside the lock) for every complete frame flushed by the client
-	OnWrite   func(n int)        // called for every Write (outside the lock)
+	open    bool
+	gen     int // incremented by every successful Open
+	inbuf   []byte
+	inErr   error // delivered once inbuf is drained (sticky until next Open)
+	outbuf  []byte
+	OnFrame func(frame []byte) // called (outside the lock) for every complete frame flushed by the client
+	OnWrite func(n int)        // called for every Write (outside the lock)
 
 	// counters
 	Opens, OpenCalls, Closes, Reads, Writes, Flushes int
